@@ -30,12 +30,6 @@ pub mod rsa;
 pub(crate) mod noise;
 #[cfg(feature = "quic")]
 pub(crate) mod tls;
-/// Verification hooks (re-exports only).
-#[cfg(feature = "verif")]
-pub mod verif {
-    pub use super::noise::{verif_parse_and_verify_peer_id, VERIF_STATIC_KEY_DOMAIN};
-}
-
 pub(crate) mod keys_proto {
     include!(concat!(env!("OUT_DIR"), "/keys_proto.rs"));
 }
@@ -44,7 +38,10 @@ pub(crate) mod keys_proto {
 /// correspondence harness. Adds code only.
 #[cfg(feature = "verif")]
 pub mod verif {
-    pub use super::noise::{handshake, HandshakeTransport, NoiseSocket, VERIF_CONSTS};
+    pub use super::noise::{
+        handshake, verif_parse_and_verify_peer_id, HandshakeTransport, NoiseSocket, VERIF_CONSTS,
+        VERIF_STATIC_KEY_DOMAIN,
+    };
 }
 
 /// The public key of a node's identity keypair.
